@@ -1,4 +1,6 @@
+pub mod c01;
 pub mod c03;
+pub mod c04;
 pub mod c08;
 pub mod c19;
 pub mod c20;
